@@ -326,6 +326,39 @@ Definition wf_program (P : program) : bool :=
   && (let o := topo_order P in
       Nat.eqb (length o) (length ids) && forallb (fun t => mem t o) ids && check_order P [] o).
 
+(* "First match wins".  The runtime takes the FIRST input dependency of a data flow whose guard holds
+   (parsec_check_IN_dependencies_with_mask/_with_counter stop scanning there; flow_preds above does the
+   same), so the common idiom
+        RW A <- (k > 0) ? X PROD(k)
+             <- D(k)                     an unguarded (or overlapping) fallback that must be final
+   is a valid program although two guards hold at once.  wf_first_match is wf_program with "exactly one
+   active input per data flow" relaxed to "at least one"; everything else is unchanged.  The C01 theorems
+   are proved for wf_first_match (PTGProofs.v), wf_program implies it. *)
+Definition data_inputs_first (G L : list Z) (f : flow) : bool :=
+  if is_ctl f then data_inputs_ok G L f
+  else if has_inputs f then negb (Nat.eqb (active_inputs G L f) 0) else true.
+Definition task_ok_first (P : program) (ids : list tid) (t : tid) : bool :=
+  match env_of P t with
+  | None => false
+  | Some (c, env) =>
+      forallb (data_inputs_first (p_globals P) env) (c_flows c)
+      && forallb (fun e => let '(ft, p, fp) := e in
+                           mem p ids && Nat.eqb (ecount (fp, t, ft) (succ_edges P p)) (ecount e (pred_edges P t)))
+                 (pred_edges P t)
+      && forallb (fun e => let '(ft, s, fs) := e in
+                           mem s ids && Nat.eqb (ecount (fs, t, ft) (pred_edges P s)) (ecount e (succ_edges P t)))
+                 (succ_edges P t)
+      && forallb (fun p => mem p ids && Nat.eqb (count t (succs P p)) (count p (preds P t))) (preds P t)
+      && forallb (fun s => mem s ids && Nat.eqb (count t (preds P s)) (count s (succs P t))) (succs P t)
+  end.
+Definition wf_first_match (P : program) : bool :=
+  let ids := instances P in
+  forallb class_limits (p_classes P)
+  && nodupb ids
+  && forallb (task_ok_first P ids) ids
+  && (let o := topo_order P in
+      Nat.eqb (length o) (length ids) && forallb (fun t => mem t o) ids && check_order P [] o).
+
 (* ------------------------------------------------------------------- keys *)
 (* C23.  jdf_generate_internal_init: for every parameter that is a range,
      int32 min = 0x7fffffff, max = 0;
